@@ -23,7 +23,7 @@ structure ParseOut where
 
 /-- `parser.Parse(src, {Version})` for a version of the family that `tables` / `paths` belong to -/
 def parseBytes (pr : ScanProg) (t : YYTab) (combs : List PosComb) (tbl : PathTable) (numString : Nat) (ge73 : Bool) (src : Array UInt8) : ParseOut :=
-  let (ls, toks) := lexAllModel pr (src.size + 16) (initLex src ge73 113) []
+  let (ls, toks) := lexAllModel src pr (src.size + 16) (initLex src ge73 113) []
   match ls.fault with
   | some m => { code := none, root := none, semErrors := 0, lexErrors := ls.errs.length, toks := toks, fault := some ("scanner: " ++ m) }
   | none =>
